@@ -78,3 +78,26 @@ def run_bridge_method(prog: Program, name: str, extra: Optional[Dict[str, Term]]
 
 def ev_calls(o: Outcome, suffix: str) -> List[Event]:
     return [e for e in o.state.events if e.kind == "call" and e.target.endswith(suffix)]
+
+
+def factory_product(I: Interp, o: Outcome, fac: Any) -> Optional[Tuple[Any, int, bool]]:
+    """What the protocol factory handed to create_datagram_endpoint produces when asyncio calls it (with no argument):
+    (heap object, object id, created by the call).  The factory may be a lambda returning an object built earlier, a
+    class, a functools.partial of a class ... - it is simply called, abstractly, in a copy of the path's state."""
+    import ast as _ast
+    if not isinstance(fac, tuple) or not fac or fac[0] not in ("lambda", "class", "partialobj", "func", "bound"):
+        return None
+    st = o.state.fork()
+    mod = I.prog.module(BRIDGE)
+    node = _ast.parse("0").body[0]
+    try:
+        v = I.call(fac, [], {}, st, Ctx(None, mod, 0), node)
+    except AnalysisError:
+        return None
+    if not (isinstance(v, tuple) and v[:1] == ("obj",) and v[1] in st.heap):
+        return None
+    return st.heap[v[1]], v[1], v[1] not in o.state.heap
+
+
+def handler_is_builder_bound_to_callback(od: Any) -> bool:
+    return bool(isinstance(od, tuple) and od[:1] == ("partialobj",) and od[1][0] == "func" and od[1][1].qualname == "_parse_device_from_datagram" and od[2] == (("sym", "on_device", "callable"),))
